@@ -207,7 +207,6 @@ class Topic(Entity):
         Returns:
             List of delivery events for each subscriber.
         """
-        now = self._clock.now if self._clock else Instant.Epoch
         self._messages_published += 1
 
         # Store in history if retaining
@@ -215,7 +214,6 @@ class Topic(Entity):
             self._message_history.append(message)
 
         # Deliver to all active subscribers
-        delivery_events = []
         active_subscribers = [sub for sub in self._subscriptions.values() if sub.active]
 
         for subscription in active_subscribers:
@@ -226,8 +224,13 @@ class Topic(Entity):
             self._messages_delivered += 1
             self._delivery_latencies.append(self._delivery_latency)
 
-            delivery_event = Event(
-                time=now,
+        # The delivery events are handed to the simulation when this generator
+        # returns, i.e. after the latency waits above: stamp them with the
+        # current time, not the publish time (an event in the past is dropped).
+        deliver_at = self._clock.now if self._clock else Instant.Epoch
+        return [
+            Event(
+                time=deliver_at,
                 event_type="topic_message",
                 target=subscription.subscriber,
                 context={
@@ -236,9 +239,8 @@ class Topic(Entity):
                     "is_replay": False,
                 },
             )
-            delivery_events.append(delivery_event)
-
-        return delivery_events
+            for subscription in active_subscribers
+        ]
 
     def publish_sync(self, message: Event) -> list[Event]:
         """Publish a message synchronously (no delay simulation).
